@@ -64,7 +64,7 @@ class UniRx:
 
 def mk_rx(cfg, greedy):
     if cfg.get("uni"):
-        t = cfg["re"].decode("utf-8")
+        t = cfg.get("py") or cfg["re"].decode("utf-8")
         return UniRx("(?:" + t + ")+" if greedy else t)
     return re.compile(b"(?:" + cfg["re"] + b")+" if greedy else cfg["re"])
 
@@ -164,12 +164,15 @@ def spec_record(rec, cfg):
 
 
 def spec_run(inp, cfg):
-    recs = inp.split(b"\n")
+    eol = b"\0" if cfg.get("z") else b"\n"
+    recs = inp.split(eol)
     if recs[-1] == b"":
         recs.pop()
     out = b""
     for r in recs:
         o, ok = spec_record(r, cfg)
+        if ok and o and cfg.get("z"):
+            o = o[:-1] + eol          # (spec_record ends a record with LF)
         out += o
         if not ok:
             return "fail", out
@@ -278,19 +281,25 @@ def _run_once(chk):
     # main), oracle: python's `str` regexes on alphabets where the two engines' classes agree.
     UNI = [("\\s+", ["a", "b", " ", "\t", "\u00a0", "\u3000"]), ("\\s", ["a", " ", "\u00a0", "\u3000"]), ("[\\s,]+", ["a", ",", " ", "\u00a0"]),
            ("\\d+", ["a", "1", "2", "\u0663", "-"]), ("\\w+", ["a", "é", "_", "-", " ", "\u0663"]), ("[^a]+", ["a", "é", "😎", "b"]),
-           ("-.", ["-", "a", "é", "\u00a0"]), ("\\S+", ["a", "é", " ", "\u00a0"])]
+           ("-.", ["-", "a", "é", "\u00a0"]), ("\\S+", ["a", "é", " ", "\u00a0"]),
+           # `.` and the anchors are where a regex looks at LINES: under -z a record may contain LF, and nothing about the expression may change
+           # (`.` still does not match LF, `^` / `$` are the ends of the RECORD) — python spelling of the anchors: \A, \Z
+           (".-", ["-", "a", "\n", "b"]), ("-.", ["-", "a", "\n"]), ("a.b", ["a", "b", "\n", "-"]),
+           ("^-", ["-", "a", "\n"], "\\A-"), (";$", [";", "a", "\n"], ";\\Z"), ("^ +| +$", [" ", "a", "\n"], "\\A +| +\\Z")]
     ucli = []
     for _ in range(600 if chk.tier == "quick" else 6000):
-        rxs, alpha = rng.choice(UNI)
+        rxs, alpha, *pyx = rng.choice(UNI)
+        z = "\n" in alpha or rng.random() < 0.15
+        eol = b"\0" if z else b"\n"
         recs = ["".join(rng.choice(alpha) for _ in range(rng.randint(0, 7))).encode() for _ in range(rng.randint(1, 3))]
-        inp = b"\n".join(recs) + (b"\n" if rng.random() < 0.7 else b"")
+        inp = eol.join(recs) + (eol if rng.random() < 0.7 else b"")
         l, r = rng.choice([(1, 1), (2, 2), (1, None), (2, 3), (-1, -1), (None, 2), (3, 3)])
         cfg = {"uni": True, "re": rxs.encode(), "g": rng.random() < 0.3, "t": rng.choice([None, None, "l", "r", "b"]), "p": False, "s": rng.random() < 0.2,
                "m": False, "j": rng.random() < 0.2, "r": rng.choice([None, None, b"/", b"::"]), "fb": rng.choice([None, b"G"]),
-               "bounds": [(l, r, None)]}
+               "bounds": [(l, r, None)], "z": z, "py": pyx[0] if pyx else None}
         if cfg["r"] is not None and rng.random() < 0.3:
             cfg["p"] = True
-        argv = ["-e", rxs, "-f", bound_text(l, r, None, l == r)]
+        argv = ["-e", rxs, "-f", bound_text(l, r, None, l == r)] + (["-z"] if z else [])
         for fl, key in (("-g", "g"), ("-p", "p"), ("-s", "s"), ("-j", "j")):
             if cfg[key]:
                 argv.append(fl)
